@@ -29,25 +29,28 @@ Lemma try_key_adjacent c w rel idx r :
 Proof. intros H1 H2 H3. unfold try_key, adjacent_key in *. rewrite H1, H2. cbn [negb]. rewrite H3. reflexivity. Qed.
 
 (* fallback: only when there is no key file beside the image, the key of the same name in REDKEY (replacing the
-   first PS3ISO element) decides; when that cannot be opened either, its error decides *)
-Lemma try_key_redkey c w rel idx :
+   first PS3ISO element) decides; when there is none there either no key applies, when it exists but cannot be opened
+   its error decides *)
+Lemma try_key_redkey c w rel idx e1 :
   list_eqb (to_lower (ext (last_elem rel))) iso_ext = true ->
   find_index (fun x => list_eqb (to_lower x) ps3iso_dir) rel 0 = Some idx ->
-  open_key c w (adjacent_key rel) = Err ENOENT ->
-  try_key c w rel = match open_key c w (redkey_key rel idx) with Ok r => r | Err e2 => Err e2 end.
+  open_key c w (adjacent_key rel) = Err e1 -> key_missing e1 = true ->
+  try_key c w rel = match open_key c w (redkey_key rel idx) with
+                    | Ok r => r
+                    | Err e2 => if key_missing e2 then Err ENOENT else Err e2
+                    end.
 Proof.
-  intros H1 H2 H3. unfold try_key, adjacent_key, redkey_key in *. rewrite H1, H2. cbn [negb]. rewrite H3.
-  destruct (open_key c w _); reflexivity.
+  intros H1 H2 H3 H4. unfold try_key, adjacent_key, redkey_key in *. rewrite H1, H2. cbn [negb]. rewrite H3, H4.
+  reflexivity.
 Qed.
 
 (* a key file beside the image that exists but cannot be opened is an error: the image is not served as if it had no key *)
 Lemma try_key_adjacent_unreadable c w rel idx e :
   list_eqb (to_lower (ext (last_elem rel))) iso_ext = true ->
   find_index (fun x => list_eqb (to_lower x) ps3iso_dir) rel 0 = Some idx ->
-  open_key c w (adjacent_key rel) = Err e -> e <> ENOENT -> try_key c w rel = Err e.
+  open_key c w (adjacent_key rel) = Err e -> key_missing e = false -> try_key c w rel = Err e.
 Proof.
-  intros H1 H2 H3 H4. unfold try_key, adjacent_key in *. rewrite H1, H2. cbn [negb]. rewrite H3.
-  destruct e; try reflexivity. congruence.
+  intros H1 H2 H3 H4. unfold try_key, adjacent_key in *. rewrite H1, H2. cbn [negb]. rewrite H3, H4. reflexivity.
 Qed.
 
 (* ---- key files: 32 hex digits (either case), anything after them is ignored ---- *)
